@@ -462,7 +462,7 @@ impl CylindricalImage {
         }
         xml += &xml::gen_int("imageWidth", self.properties.width);
         xml += &xml::gen_int("imageHeight", self.properties.height);
-        xml += &xml::gen_float("readius", self.properties.radius);
+        xml += &xml::gen_float("radius", self.properties.radius);
         xml += &xml::gen_float("principalPointY", self.properties.principal_y);
         xml += &xml::gen_float("pixelWidth", self.properties.pixel_width);
         xml += &xml::gen_float("pixelHeight", self.properties.pixel_height);
